@@ -1,5 +1,10 @@
 """Python values -> TLA+ literals."""
+class Raw(str):
+    """Already-rendered TLA+ text: passed through unchanged."""
+
 def tla(v) -> str:
+    if isinstance(v, Raw):
+        return str(v)
     if v is True:
         return "TRUE"
     if v is False:
